@@ -280,6 +280,58 @@ def lockWord : TS.LockKind → String
   | .w => "lock t.mutex"
   | .r => "rlock t.mutex"
 
+/-! ## traversals whose callback modifies the list (lock-free flavour)
+
+`for e := l.Front(); e != nil; e = e.Next() { callback(e.Value()) }` — the advance is evaluated **after** the callback,
+in the list as the callback left it.  `walkMut` is that loop with a callback that applies `act` to the current element
+at its `k`-th call (once). -/
+
+inductive ReAct
+  | rmCur | rmNext | rmPrev | mbCur | mfCur | iaCur | ibCur | pb | pf | mbFirst | mfLast | init
+deriving Repr, DecidableEq
+
+def parseReAct : String → Option ReAct
+  | "rm-cur" => some .rmCur
+  | "rm-next" => some .rmNext
+  | "rm-prev" => some .rmPrev
+  | "mb-cur" => some .mbCur
+  | "mf-cur" => some .mfCur
+  | "ia-cur" => some .iaCur
+  | "ib-cur" => some .ibCur
+  | "pb" => some .pb
+  | "pf" => some .pf
+  | "mb-first" => some .mbFirst
+  | "mf-last" => some .mfLast
+  | "init" => some .init
+  | _ => none
+
+/-- what the callback does, `e` = the element whose value it was handed -/
+def reAct (l : Bool) (first last : Nat) (a : ReAct) (s : St) (e : Nat) : St :=
+  match a with
+  | .rmCur => (step s (.remove l e)).1
+  | .rmNext => if nextOf s e = 0 then s else (step s (.remove l (nextOf s e))).1
+  | .rmPrev => if prevOf s e = 0 then s else (step s (.remove l (prevOf s e))).1
+  | .mbCur => (step s (.moveToBack l e)).1
+  | .mfCur => (step s (.moveToFront l e)).1
+  | .iaCur => (step s (.insertAfter l (100 + valueOf s e) e)).1
+  | .ibCur => (step s (.insertBefore l (100 + valueOf s e) e)).1
+  | .pb => (step s (.pushBack l 200)).1
+  | .pf => (step s (.pushFront l 300)).1
+  | .mbFirst => (step s (.moveToBack l first)).1
+  | .mfLast => (step s (.moveToFront l last)).1
+  | .init => (step s (.init l)).1
+
+/-- the loop: deliver the value, let the callback act (at its `k`-th call), THEN advance in the new state -/
+def walkMut (fwd : Bool) (act : St → Nat → St) : Nat → Nat → St → Nat → St × List Nat
+  | 0, _, s, _ => (s, [])
+  | f + 1, k, s, e =>
+    if e = 0 then (s, [])
+    else
+      let v := valueOf s e
+      let s' := if k = 1 then act s e else s
+      let r := walkMut fwd act f (k - 1) s' (if fwd then nextOf s' e else prevOf s' e)
+      (r.1, v :: r.2)
+
 /-! ### request line `lin CALL*`, `CALL = INV;RET;op;args…;result…` -/
 open Hive.Proto
 
@@ -330,6 +382,13 @@ def linLine (s : St) (toks : List String) : String :=
 def stepLineC (s : St) (toks : List String) : St × String :=
   match toks with
   | "lin" :: calls => (s, linLine s calls)
+  | ["reent", l, kind, k, a, first, last] =>
+    match parseL l, k.toNat?, parseReAct a, first.toNat?, last.toNat? with
+    | some l, some k, some a, some first, some last =>
+      let fwd := kind == "Range" || kind == "ForEach"
+      let r := walkMut fwd (reAct l first last a) (bound s + 64) k s (if fwd then front s l else back s l)
+      (compact r.1, showNatList r.2)
+    | _, _, _, _, _ => (s, "bad-op")
   | "sched" :: _ => (s, "ok")   -- names the schedule of a concurrent case (what `--replay` re-runs); no effect
   | _ => stepLine s toks
 
